@@ -186,19 +186,19 @@ func runC06(c *Ctx) {
 	showFrom("finding-F25", c06Witness25(), sp("foo"))
 
 	// ---- FilterSamplesByName: focus / ignore alone (the partition pair), then all combinations
-	for i := 0; i < c.Budget(300, 20000); i++ {
+	for i := 0; i < c.Budget(200, 4000); i++ {
 		rx := PickS(r, c06Rx)
 		seed := r.U64()
 		names("focus-only", genStacks(NewRng(seed), kn), &rx, nil, nil, nil)
 		names("ignore-only", genStacks(NewRng(seed), kn), nil, &rx, nil, nil)
 	}
-	for i := 0; i < c.Budget(600, 40000); i++ {
+	for i := 0; i < c.Budget(400, 8000); i++ {
 		names("names-rand", genStacks(r, kn), pickRx(1, 2), pickRx(1, 2), pickRx(1, 2), pickRx(1, 2))
 	}
-	for i := 0; i < c.Budget(400, 30000); i++ {
+	for i := 0; i < c.Budget(300, 5000); i++ {
 		showFrom("showfrom-rand", genStacks(r, kn), pickRx(9, 10))
 	}
-	for i := 0; i < c.Budget(200, 10000); i++ {
+	for i := 0; i < c.Budget(150, 2000); i++ {
 		var sh, hi *string
 		if r.P(2, 3) {
 			s := PickS(r, c06KeyRx)
@@ -211,7 +211,7 @@ func runC06(c *Ctx) {
 		tagsByName("tagsbyname-rand", genStacks(r, kn), sh, hi)
 	}
 	// ---- applyFocus: single options, pairs, random subsets, invalid expressions
-	for i := 0; i < c.Budget(500, 30000); i++ {
+	for i := 0; i < c.Budget(350, 6000); i++ {
 		opts := map[string]string{}
 		if r.Bool() {
 			opts["tagfocus"] = PickS(r, c06TagRx)
@@ -223,7 +223,42 @@ func runC06(c *Ctx) {
 		}
 		applyFocus("tagfilter", genStacks(r, kn), opts)
 	}
-	for i := 0; i < c.Budget(700, 50000); i++ {
+	// ---- numeric ranges at their bounds: label values lo-1, lo, lo+1, hi-1, hi, hi+1 in the range's unit
+	for i := 0; i < c.Budget(120, 2000); i++ {
+		lo := PickI(r, []int64{1, 2, 5, 10, 1024})
+		hi := lo * PickI(r, []int64{1, 2, 4})
+		unit := PickS(r, []string{"", "kb", "b", "mb"})
+		mult := map[string]int64{"": 1, "kb": 1024, "b": 1, "mb": 1 << 20}[unit]
+		p := genStacks(r, kn)
+		for _, s := range p.Sample {
+			v := PickI(r, []int64{lo - 1, lo, lo + 1, hi - 1, hi, hi + 1}) * mult
+			s.NumLabel = map[string][]int64{"bytes": {v}}
+			s.NumUnit = map[string][]string{"bytes": {"bytes"}}
+			if unit == "" {
+				s.NumUnit = nil
+			}
+		}
+		var f string
+		switch r.Intn(4) {
+		case 0:
+			f = fmt.Sprintf("%d%s:%d%s", lo, unit, hi, unit)
+		case 1:
+			f = fmt.Sprintf("%d%s:", lo, unit)
+		case 2:
+			f = fmt.Sprintf(":%d%s", hi, unit)
+		default:
+			f = fmt.Sprintf("%d%s", lo, unit)
+		}
+		if r.Bool() {
+			f = "bytes=" + f
+		}
+		opt := "tagfocus"
+		if r.Bool() {
+			opt = "tagignore"
+		}
+		applyFocus("tagrange-boundary", p, map[string]string{opt: f})
+	}
+	for i := 0; i < c.Budget(500, 10000); i++ {
 		opts := map[string]string{}
 		for _, n := range optNames {
 			if !r.P(1, 3) {
